@@ -247,6 +247,8 @@ func showAct(a *action) string {
 		s = "K"
 	case actInit:
 		s = "I"
+	case actList:
+		s = "L"
 	}
 	if a.failed {
 		s = "!" + s
@@ -266,7 +268,7 @@ func canonTrace(acts []*action) string {
 	}
 	for _, a := range acts {
 		s := showAct(a)
-		if strings.HasPrefix(s, "D") {
+		if strings.HasPrefix(s, "D") || strings.HasPrefix(s, "!D") {
 			run = append(run, s)
 		} else {
 			flush()
@@ -484,7 +486,7 @@ func (r *walRun) checkDir() {
 	for _, si := range r.cfs.meta.Segments {
 		want[segment.FileName(si)] = true
 	}
-	names, _ := r.cfs.ListDir("d")
+	names := r.cfs.listNames()
 	for _, n := range names {
 		if !want[n] {
 			r.c.witness("C13", "unlisted-file-after-open", "file "+n+" is not listed in the metadata but remains after Open", r.line)
@@ -886,7 +888,7 @@ func (r *walRun) run() string {
 		case "Y":
 			var names []string
 			if r.cfs != nil {
-				names, _ = r.cfs.ListDir("d")
+				names = r.cfs.listNames()
 			} else {
 				ents, _ := os.ReadDir(r.dir)
 				for _, e := range ents {
@@ -921,6 +923,28 @@ func (r *walRun) run() string {
 				r.cfs.faultIn = k
 				r.faulted = true
 				r.everFaulted = true
+			}
+			record = false
+		case "?":
+			// fault modes, in force while a counted fault is armed: 1 every deletion
+			// fails, 2 the next directory listing fails, 4 a creation hit by the counted
+			// fault leaves the empty file behind
+			fl := parseU(ops[i+1])
+			i++
+			if r.cfs != nil {
+				r.cfs.failDeletes = fl&1 != 0
+				r.cfs.failList = fl&2 != 0
+				r.cfs.createLeaves = fl&4 != 0
+				if fl != 0 {
+					r.faulted = true
+					r.everFaulted = true
+				}
+			}
+			record = false
+		case "~":
+			if r.cfs != nil {
+				r.cfs.faultIn = -1
+				r.cfs.failDeletes, r.cfs.failList, r.cfs.createLeaves = false, false, false
 			}
 			record = false
 		case "Q":
